@@ -48,7 +48,11 @@ def _c09_replay(tf, r):
     import dbmodel as M, pyspec, qtie
     q, p = _tuplify(r["query"]), r["point"]
     try:
-        got = qtie.impl_eval(tf, M.real_query(tf, q), M.real_point(tf, p))
+        builders = {} if r.get("built_with") else None
+        others = [M.real_query(tf, _tuplify(x), builders) for x in r.get("built_with", []) if _tuplify(x) != q]
+        rq = M.real_query(tf, q, builders)
+        others += [M.real_query(tf, _tuplify(x), builders) for x in r.get("built_with", [])]
+        got = qtie.impl_eval(tf, rq, M.real_point(tf, p))
     except Exception:
         got = 2
     want = 1 if pyspec.denote(q, p) else 0
